@@ -18,14 +18,13 @@ CHECKS = {
               '_append_file/close) with finalisation compiled to its list of file-system calls: user files untouched by any '
               'history of opens/writes/discards; for every prefix of the call list, also with the next call half done, every '
               'pre-existing file is intact under its own or a backup name (induction over the pending list under a proved '
-              'guard invariant); per-destination exactness incl. first-free backup index; the CLI gate; and a finite theorem '
+              'guard invariant); exactness of the whole pending list (every destination holds what was written, every replaced file under the first backup name free before, nothing else changes) incl. first-free backup index; the CLI gate; and a finite theorem '
               'over the write call-sites regenerated from the source. Tie: histories run on the real writer in a scratch '
               'directory with fault injection at every call, snapshots compared with the model and evaluated by proved-sound '
               'checkers inside Coq; real martinize2 runs for the gate.'),
         design_ref='DESIGN.md section 5, C07',
         note=('Trusted: Coq kernel + vm_compute; hand-written model tied by differential runs; OS modelled as atomic rename / '
-              'partial copy / partial append; mkstemp freshness; whole-list exactness is checked per output by final_okb, '
-              'proved per destination (finalize_exact_partial); crash safety assumes no destination is a backup name of another.'),
+              'partial copy / partial append; mkstemp freshness; exactness and crash safety assume distinct destinations, none a backup name of another (checked per case).'),
         technique='Coq proof (guard invariant over the finalisation call list, induction over pending entries) + extracted call-site table + in-Coq correspondence with fault injection'),
     'C12': dict(
         category='proof',
